@@ -3,7 +3,7 @@ CONSTANTS
   Budget = 6
   Enabled = {"Name", "SimpleStmt", "If", "While", "For", "With", "Try", "Module"}
   NameSet = {"a", "b"}
-  ExtraParens = FALSE
+  ExtraParens = TRUE
   Emit = TRUE
 SPECIFICATION Spec
 INVARIANTS EmitOK
